@@ -505,6 +505,19 @@ theorem failure_is_sticky_with_bytes (flags : Nat) (w : WB) (inp : Array UInt8) 
     (inflateNone flags w inp room).2.status = (if w.last = stFailedCannotMakeProgress then Model.InflB.rBuf else Model.InflB.rData) :=
   inflateNone_failed_sticky flags w inp room hf
 
+open Model.Core Model.InflB in
+/-- PROGRESS OR A TERMINAL RESULT, FOR EVERY INPUT: a call of the byte-level model that is offered at
+    least one byte of input and one byte of room — on any state with a well-formed window, whatever the
+    input bytes are, whatever happened before — consumes something, hands something over, or returns
+    stream end / a data error / a buffer error. (`flags`: any flag word without the block-boundary stop,
+    as `inflate()` builds them.) -/
+theorem progress_or_terminal_for_every_input (flags : Nat) (hstop : hasFlag flags fStopOnBlockBoundary = false) (w : WB)
+    (inp : Array UInt8) (room : Nat) (hg : WGeo w) (hi : 0 < inp.size) (hr : 0 < room) :
+    0 < (inflateNone flags w inp room).2.consumed ∨ 0 < (inflateNone flags w inp room).2.out.size ∨
+    (inflateNone flags w inp room).2.status = Model.InflB.rStreamEnd ∨ (inflateNone flags w inp room).2.status = Model.InflB.rData ∨
+    (inflateNone flags w inp room).2.status = Model.InflB.rBuf :=
+  inflateNone_progress flags hstop w inp room hg hi hr
+
 -- non-vacuity: a stored block "hi" (final), fed in two calls with one byte of room, then plenty
 example : (Model.InflB.runInfl 66 Model.InflB.WB.fresh #[] [(#[0x01, 0x02, 0x00], 1), (#[0xfd, 0xff, 0x68, 0x69], 1), (#[], 5)]).map
     (fun r => (r.1, r.2.1, r.2.2.consumed, r.2.2.out, r.2.2.status)) = [(3, 1, 3, #[], 0), (4, 1, 4, #[0x68], 0), (0, 5, 0, #[0x69], 1)] := by decide +kernel
